@@ -393,7 +393,7 @@ int __wrap_fileno(FILE *f) {
 
 static void fill_stat(struct stat *st, const SimStat &s) {
 	memset(st, 0, sizeof *st);
-	st->st_mode = (mode_t)((s.type == 'd' ? S_IFDIR : s.type == 'l' ? S_IFLNK : S_IFREG) | s.mode);
+	st->st_mode = (mode_t)((s.type == 'd' ? S_IFDIR : s.type == 'l' ? S_IFLNK : s.type == 'p' ? S_IFIFO : S_IFREG) | s.mode);
 	st->st_uid = (uid_t) s.uid;
 	st->st_gid = (gid_t) s.gid;
 	st->st_mtime = (time_t) s.mtime;
@@ -410,8 +410,9 @@ int __wrap_fstat(int fd, struct stat *st) {
 	sim_seam("fstat", (uint64_t) fd);
 	SimStat s;
 	if (it->second.src) {
-		s.type = 'f'; s.mode = 0644; s.uid = 0; s.gid = 0; s.ino = 0;
-		s.mtime = it->second.src->mtime; s.size = (int64_t) it->second.src->limit();
+		// a source that cannot seek is a pipe (or a FIFO opened by name), and says so
+		s.type = it->second.src->kind == "FILE_PIPE" ? 'p' : 'f'; s.mode = 0644; s.uid = 0; s.gid = 0; s.ino = 0;
+		s.mtime = it->second.src->mtime; s.size = s.type == 'p' ? 0 : (int64_t) it->second.src->limit();
 	} else if (g_sim.fs && it->second.ino >= 0) {
 		const Inode &n = g_sim.fs->nodes[it->second.ino];
 		s.type = n.type; s.mode = n.mode; s.uid = n.uid; s.gid = n.gid; s.ino = it->second.ino;
